@@ -334,6 +334,22 @@ def run(chk, ws, prog, tier, replays):
             b1, d1 = native_verdict(prog, dev, v['request'])
             b2, d2 = native_verdict(prog, rel, v['request'])
             chk.violation(v['key'], (d1 if b1 else d2) + ' | ' + v['what'], v['request'], bool(b1) or bool(b2))
+    # compile-time half
+    from mirsym.explore import explore_many
+    jobs = [(n, make_compiled_harness(prog, ws.src(), n, src)) for n, src in TAIL_FORMS + [NON_TAIL_WITNESS]]
+    CF_FUNCS = ['vm::compile::Vm::{compile_runnable,compile,transform,transform_procedure_application,compile_expression,compile_procedure_application,compile_lambda,compile_if,compile_define,compile_set,compile_define_syntax,compile_quote,compile_runtime_procedure_application,compile_symbol_expression,compile_formal_arguments}',
+                'vm::transform::Transform::{try_new,transform,pattern_match,expand}', 'vm::environment::{free_symbols,internally_defined_symbols,EnvironmentMap,GlobalEnvironment}', 'vm::lambda::Lambda::*',
+                'vm::builtin::Vm::load_builtins', 'vm::Vm::{eval,prepare_eval,run}', 'vm::run::Vm::{run_count,run_one} (every opcode the compiled forms use)', 'prelude.scm of the current tree (every top-level form, evaluated by the real VM from MIR)']
+    for name, res in explore_many(prog, [('compiled-tail-form/' + n, h, {'on_panic': on_panic, 'render_fmt': False, 'step_limit': 30000000}) for n, h in jobs], parallel=12, nproc_each=1):
+        print('  harness %-46s %s' % (name, res.summary()), flush=True)
+        chk.add_result(name, res, CF_FUNCS + FUNCTIONS, {'form': dict(TAIL_FORMS + [NON_TAIL_WITNESS])[name.split('/', 1)[1]], 'symbolic': 'the boolean x tested by the form (the solver decides which branches are feasible), the argument K'}, nontrivial=res.completed)
+        for v in res.violations:
+            if seen.get(v['key'] + name, 0) >= 1: continue
+            seen[v['key'] + name] = 1
+            b1, d1 = native_form(dev, v['request']); b2, d2 = native_form(rel, v['request'])
+            if b1 is None and b2 is None:
+                chk.inconclusive.append('%s: %s | %s' % (name, d1, v['what'])); continue
+            chk.violation(v['key'], (d1 if b1 else d2) + ' | ' + v['what'], v['request'], bool(b1) or bool(b2))
     chk.extra['rule'] = ('one completed path per shape (the frame arithmetic of CALL/TCALL/ENTER/VARARG/RET does not branch on argument values); evaluations = MIR paths; '
                          'argument values are solver variables compared with must-queries; distinct_nontrivial = shapes whose two runs were compared slot by slot')
     chk.assumptions += ['the compile-time half (which expressions are compiled to TCALL, the prelude derived forms) is outside the claim: a compiler or prelude change that drops a tail call is NOT detected',
@@ -344,8 +360,137 @@ def run(chk, ws, prog, tier, replays):
 
 def replay_request(req, replays):
     from vlib import core
+    if req.get('cmd') == 'c04form':
+        b1, d1 = native_form(replays[0], req); b2, d2 = native_form(replays[1], req)
+        return bool(b1) or bool(b2), d1 if b1 else d2
     prog = core.load_program(core.Workspace())
     models_vm.install(prog)
     b1, d1 = native_verdict(prog, replays[0], req)
     b2, d2 = native_verdict(prog, replays[1], req)
     return bool(b1) or bool(b2), d1 if b1 else d2
+
+
+# ------------------------------------------------------------------------------------------------------
+# compile-time half: the REAL compiler, macro expander and prelude, then the real run loop
+TAIL_FORMS = [
+    # R7RS 3.5: every <tail expression> position, written with the call (g K) in it; x is a symbolic boolean
+    ('last-body-expression', '(begin0 1 (g K))'),           # begin0 is replaced by a two-expression lambda body below
+    ('if-consequent', '(if x (g K) 0)'), ('if-alternate', '(if x 0 (g K))'), ('if-one-armed', '(if x (g K))'),
+    ('cond-clause', '(cond (x (g K)) (else 0))'), ('cond-else', '(cond (x 0) (else (g K)))'), ('cond-no-else', '(cond (x (g K)))'),
+    ('cond-second-clause', '(cond (#f 0) (x (g K)) (else 0))'),
+    ('case-clause', '(case x ((#t) (g K)) (else 0))'), ('case-else', '(case x ((#t) 0) (else (g K)))'),
+    ('and-last', '(and x (g K))'), ('or-last', '(or #f (g K))'), ('and-three', '(and #t x (g K))'),
+    ('when', '(when x (g K))'), ('when-two', '(when x 1 (g K))'), ('unless', '(unless x (g K))'),
+    ('let', '(let ((y 1)) (g K))'), ('let-two-body', '(let ((y 1)) y (g K))'), ('let*', '(let* ((y 1) (z y)) (g K))'),
+    ('letrec', '(letrec ((y 1)) (g K))'), ('named-let', '(let loop ((i 0)) (g K))'),
+    ('begin', '(begin 1 (g K))'), ('nested', '(if x (let ((y 1)) (cond (y (begin (when y (g K)))) (else 0))) (g K))'),
+    ('lambda-application', '((lambda (y) (g y)) K)'),
+    ('apply', '(apply g (list K))'), ('apply-spread', '(apply g K (list))'),
+]
+NON_TAIL_WITNESS = ('non-tail-operand', '(g (g K))')          # the inner call is NOT a tail call: its stack must be higher (vacuity witness)
+
+
+def make_compiled_harness(prog, ws_src, name, src):
+    from . import compilefab as CF
+    fab = Fab(prog)
+    C = CF.Cells(prog)
+    RUN_ONE = prog.resolve_crate('Vm::run_one')
+    EVAL = prog.resolve_crate('Vm::eval'); LB = prog.resolve_crate('Vm::load_builtins'); PREP = prog.resolve_crate('Vm::prepare_eval')
+    prelude = CF.read_all(open(ws_src + '/marwood/prelude.scm').read())
+
+    def subst(sx, env):
+        if isinstance(sx, list): return [subst(x, env) for x in sx]
+        if isinstance(sx, tuple) and sx[0] == 'sym' and sx[1] in env: return env[sx[1]]
+        if isinstance(sx, tuple) and sx[0] == 'dotted': return ('dotted', [subst(x, env) for x in sx[1]], subst(sx[2], env))
+        return sx
+
+    def program(body_src, env):
+        body = CF.read_all(body_src)[0]
+        if isinstance(body, list) and body and body[0] == ('sym', 'begin0'): bodies = body[1:]
+        else: bodies = [body]
+        lam = [('sym', 'lambda'), [('sym', 'g'), ('sym', 'x')]] + bodies
+        return C.of(subst([lam, ('sym', 'callee'), ('sym', 'X')], env))
+
+    def run_to_callee(it, vb, callee_lam, limit=4000):
+        """-> list of (sp, bp) at every entry into the callee body, final outcome"""
+        f = fab
+        hits = []
+        for n in range(limit):
+            ip = f.field(vb.v, 'Vm', 'ip')
+            if ip.f[0] == callee_lam and ip.f[1] == 1:
+                hits.append((f.field(f.field(vb.v, 'Vm', 'stack'), 'Stack', 'sp'), f.field(vb.v, 'Vm', 'bp')))
+            r = it.call(RUN_ONE, [Ref(vb)])
+            if r.var != 0: return hits, ('err', r.f[0].var)
+            if r.f[0] is True: return hits, ('halt', deref(f, vb.v, f.field(vb.v, 'Vm', 'acc')))       # the value, not the heap pointer to it
+        return hits, ('limit',)
+
+    def harness(it):
+        f = fab
+        it.ghost['form'] = name
+        heap = f.heap([f.vc('Nil')], 4096)
+        vm = f.vm(heap, f.stack([f.vc('Undefined') for _ in range(64)], 0))
+        vb = Cell(vm)
+        it.call(LB, [Ref(vb)])
+        for fm in prelude:
+            r = it.call(EVAL, [Ref(vb), Ref(Cell(C.of(fm)))])
+            if r.var != 0: raise Unsupported('the prelude does not evaluate through the encoding: %r' % (r,))
+        r = it.call(EVAL, [Ref(vb), Ref(Cell(C.of(CF.read_all('(define (callee a) a)')[0])))])
+        if r.var != 0: raise Unsupported('callee definition failed')
+        # where the callee's code lives
+        hp = f.field(vb.v, 'Vm', 'heap')
+        cells = f.field(hp, 'Heap', 'heap')
+        sym = f.field(hp, 'Heap', 'symbol_table').d['callee'].v
+        ge = f.field(vb.v, 'Vm', 'globenv')
+        slot = f.field(ge, 'GlobalEnvironment', 'bindings').d[sym].v
+        v = f.field(ge, 'GlobalEnvironment', 'slots')[slot]
+        while f.kind(v) == 'Ptr': v = cells[v.f[0]]
+        callee_lam = v.f[0] if f.kind(v) == 'Closure' else None
+        if callee_lam is None: raise Unsupported('callee is bound to a %s' % f.kind(v))
+        K = z3.BitVec('K', 64); xb = z3.Bool('x')
+        env = {'K': C.cv('Number', Agg('Number', 0, [K])), 'X': C.cv('Bool', xb)}
+        outs = []
+        for body in (src, '(g K)'):
+            vb2 = Cell(it.clone(vb.v))
+            r = it.call(PREP, [Ref(vb2), Ref(Cell(program(body, env)))])
+            if r.var != 0:
+                return {'what': 'the form %s does not compile: %r' % (body, r), 'key': 'tail-form-does-not-compile', 'request': {'cmd': 'c04form', 'form': name, 'src': src, 'x': None}}
+            outs.append(run_to_callee(it, vb2, callee_lam))
+        (hits_f, end_f), (hits_d, end_d) = outs
+        m = it.witness()
+        xv = bool(z3.is_true(m.eval(xb, model_completion=True))) if m is not None else None
+        req = {'cmd': 'c04form', 'form': name, 'src': src, 'x': xv}
+        if end_d[0] != 'halt' or len(hits_d) != 1: raise Unsupported('the direct call did not run as expected: %r %r' % (hits_d, end_d))
+        if end_f[0] != 'halt':
+            return {'what': 'the form %s ends with %r where the direct call returns' % (src, end_f), 'key': 'tail-form-fails', 'request': req}
+        if name == NON_TAIL_WITNESS[0]:
+            if len(hits_f) == 2 and hits_f[0][0] > hits_d[0][0]:
+                it.ghost['tags'] = ['witness-non-tail-call-is-higher']; return None
+            raise Unsupported('vacuity witness: the non-tail call (g (g K)) is not seen above the direct call: %r vs %r' % (hits_f, hits_d))
+        if not hits_f:
+            it.ghost['tags'] = ['call-not-reached-on-this-branch']       # e.g. (when x ..) with x = #f
+            return None
+        if hits_f[-1] != hits_d[0]:
+            return {'what': 'the call (g K) in tail position of %s enters the callee at sp=%d bp=%d, the direct tail call at sp=%d bp=%d: the form grows the stack (x=%s)' % (
+                        src, hits_f[-1][0], hits_f[-1][1], hits_d[0][0], hits_d[0][1], xv), 'key': 'tail-form-grows-stack', 'request': req}
+        if not it.must(values_equal(it, end_f[1], end_d[1])):
+            return {'what': 'the form %s returns a different value than the direct call' % src, 'key': 'tail-form-value-differs', 'request': req}
+        it.ghost['tags'] = ['tail-call-at-direct-height']
+        it.ghost['sample'] = {'form': src, 'x': xv, 'sp_at_callee': hits_f[-1][0], 'sp_direct': hits_d[0][0]}
+        return None
+    return harness
+
+
+def native_form(replay, req):
+    """the same form on the real VM through the public API: the depth of the stack trace taken inside the callee"""
+    src = req['src'].replace('begin0', 'begin')
+    x = '#t' if req.get('x') in (True, None) else '#f'
+    def depth(body):
+        replay.ask('newvm')
+        replay.ask('eval %s' % hexs('(define (callee a) (car a))'))          # fails inside the callee: the trace shows the frames below it
+        out = replay.ask('eval %s' % hexs('((lambda (g x) %s) callee %s)' % (body.replace('K', '7'), x)))
+        return out, replay.ask('trace')
+    of, tf = depth(src); od, td = depth('(g K)')
+    if of.startswith('ERR') and 'car' not in unhexs(of.split()[1]):
+        return None, 'natively the form fails before the callee is reached: %s' % unhexs(of.split()[1])
+    if tf == 'NOTRACE' or td == 'NOTRACE': return None, 'no failure inside the callee natively (%s / %s): call not reached with x=%s' % (of[:40], od[:40], x)
+    return tf != td, 'stack trace inside the callee: %s through %s, %s through a direct tail call (x=%s)' % (tf, src, td, x)
